@@ -190,6 +190,22 @@ func cmdCheck(args []string) {
 		}(o)
 	}
 	wg.Wait()
+	// an obligation left without a definite answer (a timeout or an error, typically when
+	// the machine is loaded) is tried again, one at a time with a longer timeout, before
+	// it is reported as undischarged
+	for _, o := range obls {
+		if o.ExpectSat || o.Goal == "true" || o.QueryFile == "" {
+			continue
+		}
+		if o.Res.Status == "timeout" || o.Res.Status == "unknown" || o.Res.Status == "error" {
+			r := solve(o.QueryFile, 3*timeout, *seed, false)
+			if r.Status == "unsat" || r.Status == "sat" {
+				r.TimeS += o.Res.TimeS
+				r.Output = strings.TrimSpace(r.Output)
+				o.Res = r
+			}
+		}
+	}
 	rep := buildReport(p, rr, obls, *prop, *tier, *seed, *verif, *repo, *verbose)
 	runBounded(p, rep, *prop, thorough, *seed, *verif, *repo)
 	runDemoBattery(p, rep, *prop, *verif, *repo)
